@@ -37,7 +37,7 @@ def main():
         version=1,
         setup_cmd="bin/setup",
         hooks=dict(guard="verif",
-                   enable="go build -tags verif -overlay .work/overlay.json (files under harness/shim are added to /repo's packages at build time only; nothing is committed to /repo)",
+                   enable="go build -tags verif -overlay .work/overlay_<driver>.json (files under harness/shim are added to /repo's packages at build time only; nothing is committed to /repo)",
                    baseline_off_cmd="cd /repo && GOFLAGS=-mod=mod GOPROXY=off GOSUMDB=off GOTOOLCHAIN=local go test -vet=off -count=1 ./... ; cd /repo/cmd/lint && GOFLAGS=-mod=mod GOPROXY=off GOSUMDB=off GOTOOLCHAIN=local go test -vet=off -count=1 ./...",
                    source_commits=[], add_only=True),
         engines=[dict(name="coq+harness", path="bin/check", serves_properties=[c["property_id"] for c in checks],
